@@ -547,3 +547,17 @@ const _: () = {
         }
     }
 };
+
+#[cfg(ohkami_verif)]
+#[cfg(feature="__rt_native__")]
+impl Response {
+    /// verification hook (H2): the capacity `send` reserves for the head and a
+    /// payload body: status line + headers + payload length
+    #[doc(hidden)]
+    pub fn __verif_declared_size(&self) -> usize {
+        self.status.line().len() + self.headers.size + match &self.content {
+            Content::Payload(bytes) => bytes.len(),
+            _ => 0,
+        }
+    }
+}
